@@ -645,31 +645,40 @@ def case_tube(ctx, case):
     ctx.count('tube_isolated_nodes', min(len(iso), 3))
     ctx.oracle(len(vm) == len(V) and (len(V) == 0 or (vm.min() >= 0 and vm.max() < len(P))),
                f'vertex_map ({len(vm)} entries) does not map every one of the {len(V)} vertices to a node index', case)
-    # exact sub-claims decided by Lean (theorem mesh_checkers_sound): every vertex mapped to a node index in range; every node that
-    # has an edge occurs in the map; every such node lies in the (tight) bounding box of the vertices
-    need = [i for i in range(len(P)) if i not in iso]
+    # exact sub-claims decided by Lean (theorem mesh_checkers_sound): every vertex mapped to a node index in range; every node —
+    # single-node fragments included, they are meshed as a sphere of the node's radius — occurs in the map and lies in the (tight)
+    # bounding box of the vertices
+    need = list(range(len(P)))
     lv = ctx.ask(f'c19.vmapidx {len(V)} {len(P)} | ' + ','.join(str(int(i)) for i in vm) + ' | ' + ','.join(map(str, need)))
     ctx.oracle(lv == 'ok=1 covers=1', f'Lean vmapIndexOKB / vmapCoversB on the tube mesh: {lv} ({len(V)} vertices, {len(vm)} map entries, '
-                                      f'{len(P)} nodes, {len(need)} nodes with an edge)', case)
-    if len(V) and need:
+                                      f'{len(P)} nodes, {len(iso)} of them single-node fragments)', case,
+               signature=SIG_ISO if (iso and lv == 'ok=1 covers=0' and all((vm == i).any() for i in need if i not in iso)) else None)
+    if len(V):
         lb = ctx.ask('c19.bbox 1/1048576 | ' + ';'.join(p3tok([fl(c) for c in q]) for q in V) + ' | '
                      + ';'.join(p3tok([fl(c) for c in P[i]]) for i in need))
-        ctx.oracle(lb == 'ok=1', 'Lean bboxContainsB: a node with an edge lies outside the bounding box of the tube mesh', case)
+        ctx.oracle(lb == 'ok=1', 'Lean bboxContainsB: a node lies outside the bounding box of the tube mesh', case)
     if len(vm) != len(V):
         return
     if iso:
-        ctx.oracle(all((vm == i).any() for i in iso), f'single-node fragment(s) (node index {iso[:4]}) get no tube geometry: the mesh does '
+        ctx.oracle(all((vm == i).any() for i in iso), f'single-node fragment(s) (node index {iso[:4]}) get no geometry: the mesh does '
                                                       f'not contain these nodes', case, signature=SIG_ISO)
     if len(V) == 0:
-        ctx.oracle(len(iso) == len(P), 'empty tube mesh for a skeleton with edges', case)
+        ctx.oracle(len(P) == 0, 'empty tube mesh for a non-empty skeleton', case)
         return
     tp = case['tube_points']
-    missing, off_centre = [], []
+    missing, off_centre, off_sphere = [], [], []
     for i in range(len(P)):
         ring = V[vm == i]
         if len(ring) == 0:
             if i not in iso:
                 missing.append(i)
+            continue
+        if i in iso:
+            # a closed sphere around the node: centred on it, every vertex at the node's radius
+            c = ring.mean(axis=0)
+            dist = np.linalg.norm(ring - P[i], axis=1)
+            if np.abs(c - P[i]).max() > 1e-9 * scale or np.abs(dist - abs(R[i])).max() > 1e-9 * scale:
+                off_sphere.append((i, float(np.abs(c - P[i]).max()), float(dist.min()), float(dist.max()), float(R[i])))
             continue
         for j in range(0, len(ring), tp):
             c = ring[j:j + tp].mean(axis=0)
@@ -677,16 +686,17 @@ def case_tube(ctx, case):
                 off_centre.append((i, float(np.abs(c - P[i]).max())))
     ctx.oracle(not missing, f'nodes {missing[:5]} have no tube cross-section', case)
     ctx.oracle(not off_centre, f'tube cross-sections not centred on their node (node index, deviation): {off_centre[:3]}', case)
+    ctx.oracle(not off_sphere, f'geometry of a single-node fragment is not a sphere of the node\'s radius around the node '
+                               f'(node index, centre deviation, min / max vertex distance, radius): {off_sphere[:3]}', case)
     if tm is not None and len(m.faces):
         try:
             d = tm.proximity.closest_point(m.trimesh, P)[1]
-            far = [(i, float(d[i]), float(R[i])) for i in range(len(P)) if i not in iso and d[i] > 2 * R.max() + 1e-9 * scale]
+            far = [(i, float(d[i]), float(R[i])) for i in range(len(P)) if d[i] > 2 * R.max() + 1e-9 * scale]
             ctx.oracle(not far, f'surface farther than twice the largest radius from a node (node index, distance, radius): {far[:3]}', case)
         except Exception as e:     # proximity query needs rtree
             ctx.count('tube_proximity_unavailable', type(e).__name__)
     bb = np.array([V.min(axis=0), V.max(axis=0)])
-    Pn = np.delete(P, iso, axis=0) if iso else P
-    ctx.oracle(bool(np.all(Pn >= bb[0] - 1e-9 * scale) and np.all(Pn <= bb[1] + 1e-9 * scale)), 'a node lies outside the bounding box of the tube mesh', case)
+    ctx.oracle(bool(np.all(P >= bb[0] - 1e-9 * scale) and np.all(P <= bb[1] + 1e-9 * scale)), 'a node lies outside the bounding box of the tube mesh', case)
     ctx.oracle(unit_name(m) == unit_name(x), 'units not carried over to the mesh', case)
 
 
@@ -1063,6 +1073,10 @@ def gen_tube(r):
         if _no_isolated(rows) or r.random() < 0.5:
             break
     rows = [dict(id=int(x['id']), parent=int(x['parent']), x=int(x['x']), y=int(x['y']), z=int(x['z'])) for x in rows]
+    if r.random() < 0.25:                       # extra single-node fragments (isolated roots), anywhere in the table
+        for _ in range(r.randint(1, 2)):
+            nid = max(x['id'] for x in rows) + r.randint(1, 5)
+            rows.insert(r.randrange(len(rows) + 1), dict(id=nid, parent=-1, x=r.randint(0, 200), y=r.randint(0, 200), z=r.randint(0, 200)))
     radii = [r.choice([0.125, 0.25, 0.5, 0.5]) for _ in rows]
     if r.random() < 0.15:                       # missing / zero radii are documented to be treated as 0 (the ring collapses onto the node)
         radii[r.randrange(len(radii))] = r.choice([0.0, None])
@@ -1334,7 +1348,8 @@ def run(ctx):
         'k nearest neighbours are recomputed exactly (Fractions); points whose k-th and (k+1)-th neighbour distances tie between distinct '
         'locations are skipped (free choice of the KD-tree); principal axis / alpha compared with tolerance 1e-8 relative to the trace',
         'mesh tests: tube containment is tested as "cross-section rings centred on the node and surface within two radii", because the '
-        'tube mesh is open-ended (not watertight) and ray-casting containment is undefined for it',
+        'tube mesh is open-ended (not watertight) and ray-casting containment is undefined for it; single-node fragments must be a closed '
+        'sphere of the node\'s radius centred on the node',
         'Lean judge tolerances: unit length 2^-40, eigen-residual / Rayleigh excess 2^-26·trace, characteristic-polynomial coefficients '
         '2^-30·trace^2 (trace^3) for float64 dotprops; 2^-16 / 2^-12 / 2^-12 for the float32 vector / alpha fields of voxel grids; tangents of '
         'skeletons 2^-40; surfaces: half a voxel + 2^-10 voxel; bounding boxes 2^-20·(1 + max |coordinate|)',
